@@ -35,8 +35,9 @@ ENGINES = [
      "kind_free_text": "in-memory reference store adapter (store contract transcribed from the MySQL adapter) with call journal, fault injection and crash images"},
     {"name": "E4 enum", "path": "/verif/harness", "serves_properties": ["C04", "C05", "C12", "C13", "C16", "C17", "C19", "C20"],
      "kind_free_text": "bounded-exhaustive input enumeration of the real functions against reference implementations"},
-    {"name": "E5 sqlfake", "path": "/verif/harness/server/db/mysql", "serves_properties": ["C18"],
-     "kind_free_text": "fake database/sql driver under the real MySQL adapter; every statement position x fault kind"},
+    {"name": "E5 sqlfake", "path": "/verif/harness/server/db/mysql + /verif/harness/server/db/postgres", "serves_properties": ["C18"],
+     "kind_free_text": "fake database/sql driver under the real MySQL adapter, fake PostgreSQL wire-protocol backend (pgproto3 over net.Pipe) "
+                       "under the real PostgreSQL adapter + pgx; every statement position x fault kind"},
     {"name": "E6 election", "path": "/verif/harness/server/zzverif_c17_test.go + /verif/engine/vrpc + /verif/engine/vnet", "serves_properties": ["C17"],
      "kind_free_text": "N real Cluster objects running their real run() loops under the deterministic scheduler, net/rpc replaced by a harness-owned "
                        "transport; deviation-bounded breadth-first search over timer / delivery / loss / partition events to a fixpoint"},
@@ -172,14 +173,27 @@ reg(Check("SELF", "other", "machinery self tests", [], claimed=False,
 reg(Check("C18", "fault_enumeration",
           "every transactional operation of the MySQL adapter x every statement position (BEGIN, each EXEC/QUERY/PREPARE, COMMIT) "
           "x fault kind {generic error, driver.ErrBadConn, context deadline} x sql_timeout {0, >0}, driven through the real adapter "
-          "over a fake database/sql driver; non-trivial = distinct (operation, position, kind, timeout) fault plans that hit a statement",
+          "over a fake database/sql driver; non-trivial = distinct (operation, position, kind, timeout) fault plans that hit a statement. "
+          "PostgreSQL stage (part pgfaults): every transactional operation of the PostgreSQL adapter x every statement position (BEGIN, each "
+          "statement incl. SAVEPOINT / RELEASE / ROLLBACK TO SAVEPOINT, COMMIT) x fault kind {ErrorResponse SQLSTATE 40001, connection closed by "
+          "the server without an answer} x sql_timeout {0, 10s} + {ErrorResponse after RowDescription} for SELECTs + {server stops answering, the "
+          "adapter's own 150ms/225ms context deadline fires}, driven through the real adapter + real pgx/pgxpool/pgconn over a fake PostgreSQL "
+          "backend (pgproto3 on a net.Pipe, transaction status / aborted-block / savepoint semantics of the server modelled); "
+          "non-trivial = distinct (operation, position, kind) fault plans that hit a statement",
           ["the fake driver answers SELECTs from a rule table sized to drive each operation down its longest path",
-           "PostgreSQL / MongoDB / RethinkDB adapters are not covered (no seam offline)"],
+           "pgfaults: pgx runs with PreferSimpleProtocol (one Query message per statement, arguments interpolated by pgx); the production "
+           "default is the extended protocol with a statement cache, where a statement is two round trips (prepare on first use, execute) and "
+           "server errors of a SELECT surface in rows.Next()/rows.Err() (covered by the rowserr kind, not by a prepare-time fault position)",
+           "pgfaults: the fake backend's model of a PostgreSQL server (an error aborts the transaction block, COMMIT of an aborted block is "
+           "answered ROLLBACK, a failed COMMIT or a lost connection ends the transaction) is trusted; ROLLBACK itself is never failed; the "
+           "deadline kind uses real time (re-run with a 4x/16x longer timeout when the deadline fired before the planned statement)",
+           "MongoDB / RethinkDB adapters are not covered (no seam offline)"],
           text="Complete enumeration of single-statement faults for every multi-statement adapter operation.",
-          note="trusted: database/sql's own transaction bookkeeping; fake driver in the harness",
+          note="trusted: database/sql's own transaction bookkeeping; fake driver in the harness; pgx/pgxpool/pgconn run for real over the fake backend",
           technique="exhaustive fault-point enumeration over the real code with an injected driver",
           engine="E5 sqlfake", claimed=True,
-          parts=[Part("sqlfaults", "server/db/mysql", "^TestVerifC18", tags="mysql", gomaxprocs=4)]))
+          parts=[Part("sqlfaults", "server/db/mysql", "^TestVerifC18", tags="mysql", gomaxprocs=4),
+                 Part("pgfaults", "server/db/postgres", "^TestVerifC18PG", tags="postgres", gomaxprocs=4)]))
 
 reg(Check("C01", "model_checking",
           "schedules: every interleaving of the session read loops, topic actor, hub, user cache and write loops of 3 scenarios "
@@ -261,14 +275,29 @@ reg(Check("C08", "model_checking",
                  Part("p2p", SRV, "^TestVerifC08P2P$", instr=True, gomaxprocs=16, deadline=(300, 2400))]))
 
 reg(Check("C13", "model_checking",
-          "(being extended) every request of the acl alphabet answered, also when any single store call fails",
-          [], text=XS_NOTE, note="input product part pending", technique="explicit-state model checking + fault enumeration",
-          engine="E2 xstate", claimed=True,
+          "inputs: for each of the 10 client message kinds a well-formed baseline and, for every field of it (id, topic, what, mode, user, "
+          "scheme, secret, seq, ranges, tags, credentials, head, content, on-behalf-of, ... 28 value menus of 5-27 values incl. absent, empty, "
+          "wrong type, overlong, ill-formed names, other users' ids), every single deviation in every session state {no handshake, handshake, "
+          "logged in, attached to a group, attached to a p2p topic}; selected field pairs (quick) / all pairs (thorough); 2 server "
+          "configurations in the thorough tier. raw: every byte string of length <=2, every concatenation of <=3 of 15 JSON tokens and 240 "
+          "skeleton messages, in 3 session states. races: the 9 collision scenarios of C14 judged for unanswered requests. acl-fault / "
+          "msg-fault: every request of those alphabets with every single store call failing. drafty: every content document with text from a "
+          "9-entry menu, <=1 format span from the full product of offsets x lengths x styles x keys (4000 spans thorough), <=2 entities "
+          "from an 11-entry menu, and all pairs of a reduced 140-span list, through drafty.PlainText and drafty.Preview (no panic, valid "
+          "UTF-8). Oracle: no panic, no deadlock, the server keeps answering a second client afterwards, every non-note request answered, "
+          "handler replies echo the id, malformed / unauthorised / out-of-sequence / ill-addressed requests get a code >= 400",
+          ["the virtual client speaks gRPC: websocket / long-poll framing (the '1' probe, HTTP errors) is not exercised",
+           "push adapters (fcm, tnpg) are replaced by a recording handler, so message content reaches drafty only in the drafty part, "
+           "which calls the two rendering functions directly on decoded JSON"],
+          text=XS_NOTE + "; bounded-exhaustive enumeration of single- and double-field deviations of every message kind",
+          note="", technique="bounded-exhaustive input enumeration through the real session / hub / topic code + fault enumeration",
+          engine="E4 enum + E2 xstate", claimed=True,
           parts=[Part("inputs", SRV, "^TestVerifC13Inputs$", instr=True, shards=(16, 16), deadline=(300, 3000)),
                  Part("raw", SRV, "^TestVerifC13Raw$", instr=True, shards=(16, 16), deadline=(300, 1200)),
                  Part("races", SRV, "^TestVerifC13Races$", instr=True, shards=(16, 16), deadline=(300, 3000)),
                  Part("acl-fault", SRV, "^TestVerifC13AclFault$", instr=True, gomaxprocs=16, deadline=(300, 2400)),
-                 Part("msg-fault", SRV, "^TestVerifC13MsgFault$", instr=True, gomaxprocs=16, deadline=(300, 2400))]))
+                 Part("msg-fault", SRV, "^TestVerifC13MsgFault$", instr=True, gomaxprocs=16, deadline=(300, 2400)),
+                 Part("drafty", "server/drafty", "^TestVerifC13Drafty$", shards=(16, 16), deadline=(300, 2400))]))
 
 MSG_RULE = ("BFS over histories of {pub by 4 users (one with forged sender header + noecho), soft/hard delete with 6 (quick) / 11 (thorough) "
             "range lists, read/recv/kp/bogus notes with stale/valid/future ids, want/given flips of R and W, unsub/sub/leave/attach, reload} on a "
